@@ -14,7 +14,7 @@ from ..universe import make_event, PK, SK, compute_id, _sign
 
 ID = "C16"
 LEVEL = "model_checking"
-ASSUMPTIONS = ["see C09; reference bounds follow the validator docstrings: equality with a limit is accepted (size, PoW bits, p-tag count); age exactly "
+ASSUMPTIONS = ["real nostr_relay code imported from /repo's working tree, driven through web.start_client / the storage API; SQLite runs for real behind a same-thread connection shim (bound to real aiosqlite by C06's conformance cases); LMDB is an in-memory double (bound to the real liblmdb by C10's conformance cases), msgpack is pip's pure-python codec; asyncio runs on a controlled virtual-time loop; reference bounds follow the validator docstrings: equality with a limit is accepted (size, PoW bits, p-tag count); age exactly "
                "oldest_event / future skew exactly 3600 s either way",
                "CPython switches threads only between bytecodes: opcode granularity is exhaustive for the two traced functions"]
 CHUNK = 1
